@@ -208,6 +208,38 @@ def law_sweep(ctx, em):
                 cond = np.where(okb, 1e-9 * (1 + K * full_T / (H * full_f)), np.inf) if nm == "planck" else 1e-12
                 law(f"tb-inverse-broadcast:{nm}", okb & ((np.shape(back) != full_T.shape) | (rel(np.broadcast_to(back, full_T.shape), full_T) > cond)),
                     [full_f, full_T], f"radiance2{nm}Tb(f, {nm}(f, T)) = T for f of shape {f1.shape} against T of shape {tshape}")
+    # array calls as a user makes them: float64 ndarrays the caller goes on using.  Every function of the property must
+    # leave its arguments as they are and answer alike when called again with the same arrays (round trips such as
+    # perwavenumber2perfrequency(perfrequency2perwavenumber(I)) = I are statements about the I the caller holds)
+    fq = 10 ** rng.uniform(9, 14, 12)
+    Tq = 10 ** rng.uniform(1.5, 3.3, 12)
+    Iq = rng.uniform(0.1, 5.0, 12) * 1e-12
+    th = rng.uniform(0.0, 80.0, 12)
+    pure_calls = [(nm, [fq]) for nm in ("frequency2wavelength", "frequency2wavenumber")] + \
+        [(nm, [C / fq]) for nm in ("wavelength2frequency", "wavelength2wavenumber")] + \
+        [(nm, [fq / C]) for nm in ("wavenumber2frequency", "wavenumber2wavelength")] + \
+        [("planck", [fq, Tq]), ("rayleighjeans", [fq, Tq]), ("planck_wavelength", [C / fq, Tq]), ("planck_wavenumber", [fq / C, Tq]),
+         ("rayleighjeans_wavelength", [C / fq, Tq]), ("radiance2planckTb", [fq, Iq * 1e-3]), ("radiance2rayleighjeansTb", [fq, Iq * 1e-3]),
+         ("perfrequency2perwavelength", [Iq, fq]), ("perwavelength2perfrequency", [Iq, C / fq]),
+         ("perfrequency2perwavenumber", [Iq, fq]), ("perwavenumber2perfrequency", [Iq, fq / C]),
+         ("snell", [np.full(12, 1.0), np.full(12, 1.33), th]), ("fresnel", [np.full(12, 1.0), np.full(12, 1.33), th])]
+    for name, args in pure_calls:
+        arrs = [np.array(a, dtype=np.float64) for a in args]
+        before = [a.copy() for a in arrs]
+        try:
+            r1 = np.array(getattr(em, name)(*arrs), dtype=complex, copy=True)
+            changed = [k for k, (a, b) in enumerate(zip(arrs, before)) if not np.array_equal(a, b)]
+            if changed:
+                k = changed[0]
+                law(f"arguments-modified:{name}", np.array([True]), [before[k][:3]],
+                    f"{name} modified the float64 array handed in as argument {k}: it held {before[k][:3].tolist()}..., now "
+                    f"{arrs[k][:3].tolist()}...")
+                continue
+            r2 = np.asarray(getattr(em, name)(*arrs), dtype=complex)
+            law(f"repeated-call-differs:{name}", np.array([r1.shape != r2.shape or not np.array_equal(r1, r2, equal_nan=True)]), [before[0][:3]],
+                f"two identical consecutive calls of {name} on the same arrays agree")
+        except Exception as e:  # noqa
+            law(f"array-call-raises:{name}", np.array([True]), [before[0][:3]], f"{name} on ordinary float64 arrays raised {type(e).__name__}: {e}")
     v = 10 ** rng.uniform(-7, 15, n)
     # the unit converters on integer-typed input (a Python int, a numpy integer, an integer array): the same numbers as floats
     vi = np.unique(rng.integers(1, 10 ** 6, 40))
